@@ -96,7 +96,7 @@ Section Decoders.
   (* ---- struct decoding (encoding/json over a field table) ---- *)
   Inductive ftype :=
   | TStr | TBool | TInt (lo hi : Z) | TStrList
-  | TAud | TTime | TBoolish | TSDA | TLocale | TLocales | TActor | TAddress.
+  | TAud | TTime | TBoolish | TSDA | TLocale | TLocales | TActor | TAddress | TAnyMap.
 
   (* outcome of storing one member: a type mismatch is remembered and decoding goes
      on (FSoft); an error returned by an Unmarshaler aborts the document (FHard) *)
@@ -159,6 +159,11 @@ Section Decoders.
     | TLocale => hard (decode_locale j)
     | TLocales => hard (decode_locales j)
     | TActor => hard (actor_field j)
+    | TAnyMap => match j with            (* map[string]any *)
+                 | JNull => FOk
+                 | JObj _ => if has_huge j then FSoft else FOk
+                 | _ => FSoft
+                 end
     | TAddress => match j with
                   | JNull => FOk
                   | JObj ms => if forallb (fun kv => negb (string_in (fst kv) address_keys) || str_or_null (snd kv)) ms
@@ -238,6 +243,23 @@ Section Decoders.
     [("active", TBool); ("scope", TSDA); ("client_id", TStr); ("token_type", TStr); ("exp", TTime); ("iat", TTime);
      ("auth_time", TTime); ("nbf", TTime); ("sub", TStr); ("aud", TAud); ("amr", TStrList); ("iss", TStr);
      ("jti", TStr); ("username", TStr); ("act", TActor)] ++ sc_userinfo_part.
+  Definition sc_logout_token : schema :=
+    [("iss", TStr); ("sub", TStr); ("aud", TAud); ("iat", TTime); ("exp", TTime); ("jti", TStr);
+     ("events", TAnyMap); ("sid", TStr)].
+  Definition sc_jwt_profile_assertion : schema :=
+    [("iss", TStr); ("sub", TStr); ("aud", TAud); ("exp", TTime); ("iat", TTime)].
+
+  (* DeviceAuthorizationResponse.UnmarshalJSON decodes through a pointer [aux] to a helper struct.
+     [aux_direct] = json.Unmarshal(data, aux) (after Fxx-C09-1); false = json.Unmarshal(data, &aux),
+     where JSON null resets aux to nil and the next statement reads aux.VerificationURL *)
+  Definition decode_device_authz (aux_direct : bool) (j : json) : result unit :=
+    if is_null j then
+      match deref (if aux_direct then Some tt else None) with
+      | Ok _ => Ok tt
+      | _ => Panic
+      end
+    else decode_struct true sc_device_authz false j.
+
   Definition sc_oauth_error : schema :=
     [("error", TStr); ("error_description", TStr); ("state", TStr); ("session_state", TStr)].
 End Decoders.
